@@ -20,7 +20,7 @@ enum Msg {
     /// request to signer
     SignReq { s: u8, m: Vec<u8>, mode: u8, ctx: Option<Vec<u8>> },
     /// a (key, message, signature) triple travelling to a verifier
-    Triple { mode: u8, key: Vec<u8>, m: Vec<u8>, sig: Vec<u8>, ctx: Option<Vec<u8>>, chosen: Option<[u8; 64]> },
+    Triple { mode: u8, key: Vec<u8>, m: Vec<u8>, sig: Vec<u8>, ctx: Option<Vec<u8>>, chosen: Option<[u8; 64]>, hon: bool },
     /// a triple travelling to batch queue q
     Entry { q: u8, key: Vec<u8>, m: Vec<u8>, sig: Vec<u8> },
     Flush { q: u8 },
@@ -41,6 +41,7 @@ struct W<'a> {
     now: u64,
     // what the adversary has seen (for swaps / replays)
     seen_triples: Vec<(Vec<u8>, Vec<u8>, Vec<u8>)>,
+    damaged_honest_ctx: bool,
     signer_pubs: Vec<Option<[u8; 32]>>,
     signer_seeds: Vec<Option<[u8; 32]>>,
     xpubs: Vec<Option<[u8; 32]>>,
@@ -140,7 +141,7 @@ impl<'a> W<'a> {
                     self.forward(key, m, sig, mode, ctx);
                 }
             }
-            Msg::Triple { mode, key, m, sig, ctx, chosen } => {
+            Msg::Triple { mode, key, m, sig, ctx, chosen, hon } => {
                 let (ch, d) = (self.chunks(), self.disp());
                 let ksrc = match self.rng.below(8) {
                     0 => 2,
@@ -148,7 +149,7 @@ impl<'a> W<'a> {
                     1 if key.len() == 32 && Pt::decode(&arr32(&key)).map(|p| p.is_identity()).unwrap_or(false) => 1,
                     _ => 0,
                 };
-                self.emit(Step::Ver { mode, key: B(key), m: B(m), sig: B(sig), ctx: ctx.map(B), ch, chosen: chosen.map(|c| B(c.to_vec())), d, ksrc });
+                self.emit(Step::Ver { mode, key: B(key), m: B(m), sig: B(sig), ctx: ctx.map(B), ch, chosen: chosen.map(|c| B(c.to_vec())), d, ksrc, hon });
             }
             Msg::Entry { q, key, m, sig } => {
                 self.emit(Step::BQ { q, m: B(m), sig: B(sig), key: B(key) });
@@ -198,7 +199,14 @@ impl<'a> W<'a> {
 
     fn rng_spec(&mut self) -> Rng {
         if self.faulty() {
-            match self.rng.below(4) {
+            match self.rng.below(5) {
+                4 => {
+                    // a generator whose output is made of a few repeated machine words
+                    bump(&mut self.c, "fault:rng_structured_words");
+                    let mut v = dict::structured_words(&mut self.rng).to_vec();
+                    v.extend_from_slice(&dict::structured_words(&mut self.rng));
+                    Rng { b: B(v), mode: 3 }
+                }
                 0 => {
                     bump(&mut self.c, "fault:rng_stuck_zero");
                     Rng { b: B(vec![0]), mode: 1 }
@@ -274,10 +282,10 @@ impl<'a> W<'a> {
             // signed under the stub digest: a verifier using the same stub challenge accepts, SHA-512 verifiers decide by the model
             if let Some(c) = &ctx {
                 if c.len() >= 128 {
-                    self.send(Msg::Triple { mode: 7, key: key.to_vec(), m: m.clone(), sig: sig.clone(), ctx: None, chosen: Some(refmodel::arr64(&c[64..128])) });
+                    self.send(Msg::Triple { mode: 7, key: key.to_vec(), m: m.clone(), sig: sig.clone(), ctx: None, chosen: Some(refmodel::arr64(&c[64..128])), hon: false });
                 }
             }
-            self.send(Msg::Triple { mode: 0, key: key.to_vec(), m, sig, ctx: None, chosen: None });
+            self.send(Msg::Triple { mode: 0, key: key.to_vec(), m, sig, ctx: None, chosen: None, hon: false });
             return;
         }
         let prehashed = !matches!(mode % 6, 0 | 1 | 4);
@@ -287,19 +295,22 @@ impl<'a> W<'a> {
         // undamaged
         let vm = vmodes[self.rng.below(vmodes.len() as u64) as usize];
         let c2 = if vm == 10 && vctx.as_ref().map(|c| c.is_empty()).unwrap_or(false) && self.rng.coin() { None } else { vctx.clone() };
-        self.send(Msg::Triple { mode: vm, key: key.to_vec(), m: m.clone(), sig: sig.clone(), ctx: c2, chosen: None });
+        self.send(Msg::Triple { mode: vm, key: key.to_vec(), m: m.clone(), sig: sig.clone(), ctx: c2, chosen: None, hon: false });
         // cross-protocol: a pure signature presented as prehashed and vice versa
         if self.rng.chance(1, 8) {
             bump(&mut self.c, "fault:cross_protocol");
             let other: &[u8] = if prehashed { &[0, 2, 5] } else { &[3, 4, 6] };
             let om = other[self.rng.below(other.len() as u64) as usize];
-            self.send(Msg::Triple { mode: om, key: key.to_vec(), m: m.clone(), sig: sig.clone(), ctx: if prehashed { None } else { Some(vec![]) }, chosen: None });
+            self.send(Msg::Triple { mode: om, key: key.to_vec(), m: m.clone(), sig: sig.clone(), ctx: if prehashed { None } else { Some(vec![]) }, chosen: None, hon: false });
         }
         // through the adversary
         if self.fault_pct > 0 && self.rng.chance(1, 2) {
+            self.damaged_honest_ctx = false;
             let (k2, m2, s2, c2) = self.damage(key.to_vec(), m.clone(), sig.clone(), vctx.clone());
             let vm = vmodes[self.rng.below(vmodes.len() as u64) as usize];
-            self.send(Msg::Triple { mode: vm, key: k2, m: m2, sig: s2, ctx: c2, chosen: None });
+            // only the context was touched: still an honest signature on this key and message (C08: any other context refuses it)
+            let hon = self.damaged_honest_ctx && k2 == key.to_vec() && m2 == m && s2 == sig;
+            self.send(Msg::Triple { mode: vm, key: k2, m: m2, sig: s2, ctx: c2, chosen: None, hon });
         }
         // batch path (pure Ed25519 only)
         if !prehashed && self.rng.chance(2, 3) {
@@ -358,11 +369,22 @@ impl<'a> W<'a> {
                     key = others[self.rng.below(others.len() as u64) as usize].to_vec();
                 }
             }
+            6 if ctx.is_some() && self.rng.chance(1, 4) => {
+                // the honest context extended (shared prefix), possibly past the documented 255 bytes: another context
+                bump(&mut self.c, "fault:context_extended");
+                let mut c = ctx.clone().unwrap();
+                let extra = [1usize, 2, 32, 256, 300][self.rng.below(5) as usize];
+                let tail = self.rng.bytes(extra);
+                c.extend_from_slice(&tail);
+                ctx = Some(c);
+                self.damaged_honest_ctx = true;
+            }
             6 if self.rng.chance(1, 3) => {
                 // a context longer than the documented 255 bytes handed to a verifier
                 bump(&mut self.c, "fault:context_overlong");
                 let n = [256usize, 257, 286, 287, 300, 400, 1000][self.rng.below(7) as usize];
                 ctx = Some(self.rng.bytes(n));
+                self.damaged_honest_ctx = true;
             }
             6 => {
                 bump(&mut self.c, "fault:context_changed");
@@ -424,8 +446,8 @@ impl<'a> W<'a> {
     fn byzantine(&mut self) {
         let t = ed::torsion();
         let b = ed::basepoint();
-        let kind = self.rng.below(7);
-        let prehashed = self.rng.chance(1, 4);
+        let kind = self.rng.below(8);
+        let prehashed = if kind == 7 { self.rng.coin() } else { self.rng.chance(1, 4) };
         let cl = self.rng.below(4) as usize;
         let ctx: Option<Vec<u8>> = if prehashed { Some(self.rng.bytes(cl)) } else { None };
         let mlen = self.rng.below(40) as usize;
@@ -577,6 +599,35 @@ impl<'a> W<'a> {
                 sg[..32].copy_from_slice(&rb);
                 (key, sg)
             }
+            7 => {
+                // R of small order with everything else consistent: R = identity under the honest key (S = k a), or R = T1
+                // under the mixed key A + T2 when -[k]T2 = T1. The plain verifiers accept, the strict ones must refuse,
+                // through every strict entry point (pure and prehashed)
+                bump(&mut self.c, "fault:byz_small_order_R_equation_holds");
+                let mixed = self.rng.coin();
+                let t2 = t[1 + self.rng.below(7) as usize];
+                let key = if mixed { a_pt.add(&t2).encode() } else { a_pt.encode() };
+                let mut out = (key, [0u8; 64]);
+                for _try in 0..24 {
+                    let t1 = if mixed { t[self.rng.below(8) as usize] } else { t[0] };
+                    let mut rb = t1.encode();
+                    if !mixed && self.rng.chance(1, 6) {
+                        // the identity in its sign-bit alias: not the canonical R, so never acceptable
+                        rb[31] |= 0x80;
+                    }
+                    let k = challenge(&rb, &key, &hash_in(&m));
+                    let mut sg = [0u8; 64];
+                    sg[..32].copy_from_slice(&rb);
+                    sg[32..].copy_from_slice(&k.mul(&a_sc).to_bytes());
+                    out = (key, sg);
+                    if !mixed || t2.mul_le(&k.to_bytes()).neg() == t1 {
+                        bump(&mut self.c, "probe:byz_small_order_R_accepted_by_plain_verifier");
+                        break;
+                    }
+                    m.push(self.rng.below(256) as u8);
+                }
+                out
+            }
             _ => {
                 // honest signature, then S shifted by a multiple of l (legacy builds accept S + l below 2^253)
                 bump(&mut self.c, "fault:byz_S_plus_l");
@@ -601,7 +652,7 @@ impl<'a> W<'a> {
         let n = 2 + self.rng.below(2) as usize;
         for i in 0..n {
             let mode = modes[i % modes.len()];
-            self.send(Msg::Triple { mode, key: key.to_vec(), m: m.clone(), sig: sig.to_vec(), ctx: ctx.clone(), chosen: None });
+            self.send(Msg::Triple { mode, key: key.to_vec(), m: m.clone(), sig: sig.to_vec(), ctx: ctx.clone(), chosen: None, hon: false });
         }
         // ChosenDigest: the adversary picks the challenge outright (digest-generic hazmat API only)
         if !prehashed && self.rng.chance(1, 3) {
@@ -621,10 +672,10 @@ impl<'a> W<'a> {
                 sg[..32].copy_from_slice(&rp.encode());
                 sg[32..].copy_from_slice(&r.to_bytes());
                 if self.rng.coin() {
-                    self.send(Msg::Triple { mode: 7, key: key.to_vec(), m: m.clone(), sig: sg.to_vec(), ctx: None, chosen: Some(chosen) });
+                    self.send(Msg::Triple { mode: 7, key: key.to_vec(), m: m.clone(), sig: sg.to_vec(), ctx: None, chosen: Some(chosen), hon: false });
                 } else {
                     let cx = self.rng.bytes(3);
-                    self.send(Msg::Triple { mode: 11, key: key.to_vec(), m: m.clone(), sig: sg.to_vec(), ctx: Some(cx), chosen: Some(chosen) });
+                    self.send(Msg::Triple { mode: 11, key: key.to_vec(), m: m.clone(), sig: sg.to_vec(), ctx: Some(cx), chosen: Some(chosen), hon: false });
                 }
             }
         }
@@ -656,7 +707,7 @@ impl<'a> W<'a> {
                     .map(|_| match self.rng.below(4) {
                         0 => 0,
                         1 => 1,
-                        2 => 1000,
+                        2 => 65535,
                         _ => self.rng.below(n as u64) as u16,
                     })
                     .collect()
@@ -683,6 +734,10 @@ impl<'a> W<'a> {
         if self.rng.chance(1, if self.thorough { 150 } else { 700 }) {
             // beyond 4096 entries (an implementation that works in blocks must not lose the tail)
             n = 4100;
+        }
+        if self.rng.chance(1, if self.thorough { 400 } else { 2500 }) {
+            // beyond 8192 and 16384 entries (recursive splitting, 2^15-term multiscalar inputs)
+            n = if self.rng.chance(1, 3) { 16400 } else { 8200 };
         }
         bump(&mut self.c, &format!("probe:batch_n={}", n));
         let q = 2 + self.rng.below(2) as u8;
@@ -727,11 +782,41 @@ impl<'a> W<'a> {
                 entries[pos].2 = sg.to_vec();
             }
         }
+        // adjacent entries whose keys are the same point in different accepted encodings (only x = 0 points and y < 19
+        // have more than one): each is valid alone, so the batch's verdict is unchanged by them
+        if n >= 2 && self.rng.chance(1, 6) {
+            bump(&mut self.c, "fault:batch_adjacent_keys_same_point_other_encoding");
+            let run = 2 + self.rng.below(3) as usize;
+            let pos = self.rng.below((n - run.min(n) + 1) as u64) as usize;
+            let second = self.rng.chance(1, 3);
+            for (j, e) in entries.iter_mut().skip(pos).take(run).enumerate() {
+                // identity: y = 1 or y = p + 1, sign bit free; order-2 point (0,-1): sign bit free
+                let mut key = if second { ed::torsion()[4].encode() } else if (j / 2) % 2 == 0 { Pt::IDENTITY.encode() } else { dict::p_plus(1) };
+                if j % 2 == 1 {
+                    key[31] |= 0x80;
+                }
+                let tp = if second { ed::torsion()[4] } else { Pt::IDENTITY };
+                // R = [r]B, S = r verifies when [k]A = 0: always for the identity, for even k under (0,-1)
+                for _try in 0..16 {
+                    let sv = refmodel::Sc::from_bytes_mod_order(&self.rng.arr32());
+                    let rb = ed::basepoint().mul_le(&sv.to_bytes()).encode();
+                    let k = refmodel::Sc::from_wide(&RealSha512.hash(&[&rb, &key, &e.1]));
+                    let mut sg = [0u8; 64];
+                    sg[..32].copy_from_slice(&rb);
+                    sg[32..].copy_from_slice(&sv.to_bytes());
+                    e.0 = key.to_vec();
+                    e.2 = sg.to_vec();
+                    if tp.mul_le(&k.to_bytes()).is_identity() {
+                        break;
+                    }
+                }
+            }
+        }
         // long batches: two entries a whole block apart with only their S halves swapped (each then fails alone; an
         // implementation that draws its coefficients block-wise must not give them the same coefficient)
         let block_swap = n > 256 && self.rng.chance(1, 3);
         if block_swap {
-            let dists: Vec<usize> = [256usize, 512, 1024, 2048, 4096].iter().cloned().filter(|d| *d < n).collect();
+            let dists: Vec<usize> = [256usize, 512, 1024, 2048, 4096, 8192].iter().cloned().filter(|d| *d < n).collect();
             let dist = dists[self.rng.below(dists.len() as u64) as usize];
             let pos = self.rng.below((n - dist) as u64) as usize;
             bump(&mut self.c, "fault:batch_S_halves_swapped_block_distance");
@@ -874,8 +959,29 @@ impl<'a> W<'a> {
         for p in 0..np {
             let fl = self.rng.below(7) as u8;
             let rng = self.rng_spec();
+            let secret = arr32(&crate::env::rng_prefix(&rng.b.0, 32));
             let o = self.emit(Step::XKey { p, fl, rng });
             self.xpubs[p as usize] = o.as_ref().and_then(|o| obs_get(o, "pub")).map(|v| arr32(v));
+            if fl != 6 && o.is_some() && self.rng.chance(1, 6) {
+                // a peer value chosen (with knowledge the adversary would not have, but the simulator does) so that the
+                // shared secret comes out as a given word-structured value: nothing about a secret's bit pattern may matter
+                let k = refmodel::Sc::from_bytes_mod_order(&sc::clamp(&secret));
+                for _try in 0..48 {
+                    let mut target = dict::structured_words(&mut self.rng);
+                    target[31] &= 0x7f;
+                    let pt = match refmodel::x25519::to_edwards(&target, 0) {
+                        Some(pt) => pt,
+                        None => continue,
+                    };
+                    if pt.is_identity() || !pt.mul_u256(&sc::l()).is_identity() || k == refmodel::Sc::ZERO {
+                        continue;
+                    }
+                    let q = pt.mul_le(&k.inv().to_bytes());
+                    bump(&mut self.c, "fault:x_peer_crafted_for_structured_shared_secret");
+                    self.send(Msg::Pub { from: 7, to: p, bytes: q.to_montgomery_u().to_bytes(), honest: false });
+                    break;
+                }
+            }
             bump(&mut self.c, &format!("probe:x_flavour_{}", fl));
         }
         for p in 0..np {
@@ -1087,6 +1193,7 @@ pub fn generate(seed: u64, run: u64, focus: &str, thorough: bool) -> Plan {
         msgs: Vec::new(),
         now: 0,
         seen_triples: Vec::new(),
+        damaged_honest_ctx: false,
         signer_pubs: vec![None; 8],
         signer_seeds: vec![None; 8],
         xpubs: vec![None; 8],
